@@ -134,7 +134,7 @@ Proof.
     replace (g_npix g) with (Z.of_nat (Z.to_nat (g_npix g))) at 1 by (destruct Hg as (_ & _ & _ & Hn); lia).
     rewrite enc_plane_stride; [|apply seg_off_pos; assumption|assumption|].
     2:{ assert (zlen (zskip (seg_pos g s) src) <= zlen src) by (rewrite zlen_zskip by lia; lia). unfold zlen in *. lia. }
-    cbn [obind]. fold (plane g src s).
+    cbn [obind e_c e_count e_offsets e_buf]. fold (plane g src s).
     destruct (enc_bytes c_init (plane g src s)) as [o c'] eqn:Eb. cbn [fst snd e_c e_count e_offsets e_buf].
     pose proof (enc_flush_snd c') as Hsnd. destruct (enc_flush c') as [o2 c2] eqn:Ef. cbn [snd] in Hsnd. subst c2.
     rewrite IH; try assumption; try lia; try reflexivity.
@@ -205,5 +205,5 @@ Proof.
   assert (H : forall a b, (a + b = 15)%nat -> skipn a (repeat 0 15) = repeat 0 b).
   { intros a b Hab. replace 15%nat with (a + b)%nat by lia. rewrite repeat_app.
     rewrite <- (repeat_length 0 a) at 1. apply skipn_length_app. }
-  apply H. lia.
+  f_equal. apply H. lia.
 Qed.
